@@ -64,7 +64,7 @@ MUTANTS = [
 
 
 # applications''')]),
- dict(name="serialize-adds-random-nonce", props=["C08", "C10", "C11"], edits=[(SP,
+ dict(name="serialize-adds-random-nonce", props=["C08", "C11"], edits=[(SP,
       '''        return json.dumps(self._serialize_to_dict()).encode("ascii")''',
       '''        d = self._serialize_to_dict()
         d["nonce"] = hexlify(os.urandom(4)).decode("ascii")
